@@ -528,6 +528,35 @@ pub fn c08(ctx: &mut Ctx, acc: &mut Acc) -> i32 {
             if idx == 0 && acc.samples.len() < 6 {
                 acc.sample(J::obj().with("type", J::s(id.clone())).with("encoding", J::s(short(&bytes))).with("cut_points_tried", J::u(bytes.len().min(4096 + 768) as u64)));
             }
+            // the same value in the unknown-length sequence form (what a foreign writer or an iterator without exact size
+            // hint produces): its strict prefixes must be rejected as well — in particular the one that lacks only the terminator
+            if idx % 2 == 0 && ty.any(&mut |t| matches!(t, Ty::Seq(_) | Ty::Set(_) | Ty::Map(_, _) | Ty::Array(_, _)), &mut Vec::new()) {
+                let mut form_rng = ctx.rng_for(TAG_C08 ^ 0xF0, id, idx);
+                let mut any_unknown = false;
+                let mut choose = || {
+                    let u = form_rng.chance(2, 3);
+                    any_unknown |= u;
+                    u
+                };
+                if let Ok(fb) = ref_encode_forms(&ty, &v, &mut choose) {
+                    if any_unknown && fb != bytes && fb.len() <= 2048 {
+                        for k in 0..fb.len() {
+                            let prefix = &fb[..k];
+                            acc.case(Some(sig(&[id.as_bytes(), b"forms", prefix])));
+                            match sbase::dec(s, prefix) {
+                                Call::Err(_) => acc.count("rejected_unknown_length_form"),
+                                other => {
+                                    let class = if other.is_ok() { "decoded_ok".to_string() } else { other.class() };
+                                    acc.violation(
+                                        format!("C08|{id}|unknown_length_form|{class}"),
+                                        replay_decode("C08", id, prefix, "strict prefix of a reference encoding with unknown-length sequence forms").with("full_len", J::u(fb.len() as u64)).with("cut", J::u(k as u64)),
+                                    );
+                                }
+                            }
+                        }
+                    }
+                }
+            }
         }
         acc.count("types");
     }
